@@ -98,7 +98,7 @@ _ATTR = None
 def attribute(entry: Any, v: Any) -> bool:
     global _ATTR  # pylint: disable=global-statement
     if _ATTR is None:
-        _ATTR = findings.by_patch(worker)
+        _ATTR = findings.any_of(findings.by_repair(worker, lambda it: it[-1], lambda it, s: tuple(it[:-1]) + (s,), patches=("kind-partitions",)), findings.by_patch(worker))
     return _ATTR(entry, v)
 
 
